@@ -12,6 +12,7 @@ def table : List ModelEntries :=
   [ Entries.stopsource
   , Entries.mutexv1
   , Entries.mutexv2
+  , Entries.mutexv2fix
   , Entries.alist
   ]
 
